@@ -16,6 +16,19 @@
  *                                              and the segments it returned
  *   Q <id> <t,t,...> | <bits>                  IsInside(t) for every t
  *   K <b> <e> <ranges> | <segs>                LegacyTimePeriod::ScriptFunc on a period with these ranges ("!" = threw)
+ *   A <id> <now> <own> | <vb> <ve> <segs> <fb> <fe> <ownret>
+ *                                              virtual clock := now; PreActivate() + Activate() of the period, i.e. the real
+ *                                              TimePeriod::Start (creates the 300 s timer on first use, pre-fills now..now+24h)
+ *   T <now> <owns> | <fired> <order> {<id> <active> <vb> <ve> <segs> <fb> <fe> <ownret>}*
+ *                                              virtual clock := now; Timer::VerifFireDue(now), i.e. the real
+ *                                              TimePeriod::UpdateTimerHandler if the timer is due (PurgeSegments(now-3600) +
+ *                                              non-clearing UpdateRegion(valid_end, now+24h) on every active period).
+ *                                              owns: "id=b:e,b:e;id=..." or "-" (what the native update functions return);
+ *                                              fired: did the handler run (a sentinel period sees it); order: the ids of the
+ *                                              periods whose update function was not asked, then the others in the order their
+ *                                              update functions were asked (oracle input: the iteration order of the handler
+ *                                              is not the property's business); then the state of every period of the case.
+ *                                              Within one process the <now> values of A/T lines must not decrease.
  *
  * Modes:  gen --seed S --tier quick|thorough --layer alg|cal [--tz NAME]
  *         ops FILE        replay the lines of FILE (text after " | " ignored)
@@ -40,6 +53,7 @@ struct PInfo {
 	TimePeriod::Ptr tp;
 	std::vector<Seg> own;   /* what the native update function returns next */
 	bool invoked = false;
+	unsigned long seq = 0;   /* position of the last invocation of the update function in the process-wide sequence */
 	long long fb = 0, fe = 0;
 	bool legacy = false;
 	std::string ownret = "-"; /* what the update function returned at its last invocation */
@@ -48,6 +62,7 @@ struct PInfo {
 static std::map<std::string, PInfo*> l_ByName; /* object name -> info */
 static std::map<int, PInfo*> l_ById;
 static int l_CaseNo = 0;
+static unsigned long l_InvokeSeq = 0;
 
 static std::string ShowSegsArr(const Array::Ptr& segments);
 
@@ -59,6 +74,7 @@ static Array::Ptr VerifUpdate(const TimePeriod::Ptr& tp, double begin, double en
 		return res;
 	PInfo *pi = it->second;
 	pi->invoked = true;
+	pi->seq = ++l_InvokeSeq;
 	pi->fb = (long long)begin;
 	pi->fe = (long long)end;
 	for (auto& s : pi->own)
@@ -72,6 +88,7 @@ static Array::Ptr LegacyUpdate(const TimePeriod::Ptr& tp, double begin, double e
 	auto it = l_ByName.find(tp->GetName().GetData());
 	if (it != l_ByName.end()) {
 		it->second->invoked = true;
+		it->second->seq = ++l_InvokeSeq;
 		it->second->fb = (long long)begin;
 		it->second->fe = (long long)end;
 	}
@@ -248,6 +265,100 @@ static void OpScript(long long b, long long e, const std::string& ranges)
 	printf("K %lld %lld %s | %s\n", b, e, ranges.c_str(), obs.c_str());
 }
 
+/* ---- activation and the update timer ------------------------------------------------------ */
+
+static TimePeriod::Ptr l_Sentinel;
+static bool l_SentinelInvoked = false;
+static Function::Ptr l_SentinelFn;
+
+static Array::Ptr SentinelUpdate(const TimePeriod::Ptr&, double, double)
+{
+	l_SentinelInvoked = true;
+	return new Array();
+}
+
+static void EnsureSentinel()
+{
+	if (l_Sentinel)
+		return;
+	l_SentinelFn = new Function("VerifSentinel", SentinelUpdate, { "tp", "begin", "end" });
+	l_Sentinel = new TimePeriod();
+	l_Sentinel->SetName("c08_sentinel", true);
+	l_Sentinel->SetUpdate(l_SentinelFn, true);
+	l_Sentinel->SetIncludes(new Array(), true);
+	l_Sentinel->SetExcludes(new Array(), true);
+	l_Sentinel->Register();
+	l_Sentinel->PreActivate(); /* active, but never started: it must not be what creates the timer */
+}
+
+static std::string ObsOf(PInfo *pi, bool threw)
+{
+	std::string f = pi->invoked ? std::to_string(pi->fb) + " " + std::to_string(pi->fe) : std::string("- -");
+	return ShowVal(pi->tp->GetValidBegin()) + " " + ShowVal(pi->tp->GetValidEnd()) + " " + ShowSegsArr(pi->tp->GetSegments()) + " " + f + " "
+		+ pi->ownret + (threw ? " !" : "");
+}
+
+static bool OpActivate(int id, long long now, const std::string& own)
+{
+	auto it = l_ById.find(id);
+	if (it == l_ById.end() || it->second->tp->IsActive()) return false;
+	PInfo *pi = it->second;
+	pi->own = ParseSegs(own);
+	pi->invoked = false;
+	pi->ownret = "-";
+	SetNow((double)now);
+	bool threw = false;
+	try {
+		pi->tp->PreActivate();
+		pi->tp->Activate(false, Empty);
+	} catch (const std::exception&) {
+		threw = true;
+	}
+	printf("A %d %lld %s | %s\n", id, now, own.c_str(), ObsOf(pi, threw).c_str());
+	return true;
+}
+
+static void OpTick(long long now, const std::string& owns)
+{
+	EnsureSentinel();
+	for (auto& kv : l_ById) {
+		kv.second->own.clear();
+		kv.second->invoked = false;
+		kv.second->ownret = "-";
+	}
+	for (auto& ent : SplitStr(owns, ';')) {
+		size_t eq = ent.find('=');
+		if (eq == std::string::npos) continue;
+		auto it = l_ById.find(atoi(ent.substr(0, eq).c_str()));
+		if (it != l_ById.end())
+			it->second->own = ParseSegs(ent.substr(eq + 1));
+	}
+	{
+		ObjectLock olock(l_Sentinel);
+		l_Sentinel->SetValidBegin(Empty);
+		l_Sentinel->SetValidEnd(Empty);
+		l_Sentinel->SetSegments(new Array());
+	}
+	l_SentinelInvoked = false;
+	SetNow((double)now);
+	Timer::VerifFireDue((double)now);
+	/* the order in which the handler went through the periods, as far as it can make a difference from the cut-off on:
+	 * periods whose update function was not asked (nothing to refresh) first, then the others in the order of the calls */
+	std::string order;
+	std::vector<std::pair<unsigned long, int>> byseq;
+	for (auto& kv : l_ById)
+		byseq.emplace_back(kv.second->invoked ? kv.second->seq : 0UL, kv.first);
+	std::sort(byseq.begin(), byseq.end());
+	for (auto& p : byseq) {
+		if (!order.empty()) order += ",";
+		order += std::to_string(p.second);
+	}
+	std::string obs = std::string(l_SentinelInvoked ? "1" : "0") + " " + (order.empty() ? "-" : order);
+	for (auto& kv : l_ById)
+		obs += " " + std::to_string(kv.first) + " " + (kv.second->tp->IsActive() ? "1" : "0") + " " + ObsOf(kv.second, false);
+	printf("T %lld %s | %s\n", now, owns.c_str(), obs.c_str());
+}
+
 /* ---- time zone --------------------------------------------------------------------------- */
 
 static long OffAt(time_t t)
@@ -413,6 +524,67 @@ static void RandomNested(Rng& rng, int n, long long span)
 	}
 }
 
+/* Activation (real Start) and runs of the real update timer on nested periods with native update functions.  Every case
+ * lives in its own, later stretch of the time axis (the timer of the process is due relative to the virtual clock). */
+static long long l_TickBase = 10000000;
+
+static void RandomTicks(Rng& rng, int n)
+{
+	for (int k = 0; k < n; k++) {
+		OpCase("tick");
+		long long now = l_TickBase + 1000 + (long long)rng.below(5000);
+		int np = 1 + (int)rng.below(4);
+		/* period i may only refer to periods with a larger id; the definition (= registration) order is random, so the
+		 * handler meets an includer before or after what it includes */
+		std::vector<int> ord;
+		for (int i = 0; i < np; i++) ord.insert(ord.begin() + (long)rng.below(ord.size() + 1), i);
+		for (int i : ord) {
+			std::string incs, excs;
+			for (int j = i + 1; j < np; j++) {
+				int r = (int)rng.below(3);
+				if (r == 0) incs += (incs.empty() ? "" : ",") + std::to_string(j);
+				else if (r == 1) excs += (excs.empty() ? "" : ",") + std::to_string(j);
+			}
+			OpPeriod(i, (int)rng.below(2), incs.empty() ? "-" : incs, excs.empty() ? "-" : excs, "-");
+		}
+		std::vector<std::vector<Seg>> all;
+		bool coarse = rng.coin(); /* coarse grid: boundaries coincide often */
+		long long grid = coarse ? 3600 : 1;
+		auto segs = [&](int maxN, long long lo, long long hi) {
+			std::vector<Seg> v = RandSegs(rng, maxN, lo, hi);
+			for (auto& s : v) { s.first = s.first / grid * grid; s.second = (s.second / grid + 1) * grid; }
+			all.push_back(v);
+			return v;
+		};
+		/* activation, leaves first or in definition order (what the start-up does is not defined) */
+		std::vector<int> act = ord;
+		if (rng.coin()) { act.clear(); for (int i = np - 1; i >= 0; i--) act.push_back(i); }
+		for (int i : act) {
+			if (rng.below(10) == 0) continue; /* stays inactive: the handler skips it, others still refer to it */
+			OpActivate(i, now, ShowSegs(segs(4, now - 20000, now + 110000)));
+			if (rng.below(4) == 0) now += (long long)rng.below(200);
+		}
+		OpQuery(0, BoundaryTs(rng, all, now - 3600, now + 86400));
+		int ticks = 1 + (int)rng.below(5);
+		for (int f = 0; f < ticks; f++) {
+			static const long long jumps[] = { 0, 0, 300, 3000, 20000, 50000 };
+			now += 300 + (long long)rng.below(4) + jumps[rng.below(6)];
+			std::string owns;
+			for (int i = 0; i < np; i++) {
+				if (rng.below(3) == 0) continue;
+				if (!owns.empty()) owns += ";";
+				owns += std::to_string(i) + "=" + ShowSegs(segs(3, now + 60000, now + 120000));
+			}
+			OpTick(now, owns.empty() ? "-" : owns);
+			std::vector<std::vector<Seg>> probe = all;
+			probe.push_back({ Seg(now - 3600, now + 86400) });
+			OpQuery((int)rng.below((uint64_t)np), BoundaryTs(rng, probe, now - 3600, now + 86400));
+			if (rng.coin()) OpQuery(0, BoundaryTs(rng, probe, now - 3600, now + 86400));
+		}
+		l_TickBase = now + 400000;
+	}
+}
+
 static void GenAlgebra(uint64_t seed, bool thorough)
 {
 	Rng rng(seed);
@@ -420,6 +592,7 @@ static void GenAlgebra(uint64_t seed, bool thorough)
 	RandomSmall(rng, thorough ? 200000 : 30000, 6);
 	RandomNested(rng, thorough ? 100000 : 15000, 40);
 	RandomNested(rng, thorough ? 20000 : 3000, 100000);
+	RandomTicks(rng, thorough ? 40000 : 6000);
 }
 
 /* ---- generators: calendar ----------------------------------------------------------------- */
@@ -606,6 +779,57 @@ static void GenNewYear(Rng& rng, bool thorough)
 	}
 }
 
+/* Day definitions that NAME a month ("<weekday> <n> <month>", "<month> <d>", "<month> <a> - <b>") or count from the end
+ * of the month, evaluated on EVERY day of a whole year: the reference day then also takes the values that do not exist
+ * in the named month (29th..31st), lies in every other month, and is the n-th last day of its own month.  Enumerated:
+ * every month x every weekday for the last / 5th weekday, every month for the month-day forms. */
+static void GenNamedMonth(Rng& rng, bool thorough, int year)
+{
+	std::vector<std::string> defs;
+	for (int mo = 0; mo < 12; mo++) {
+		for (int w = 0; w < 7; w++)
+			for (int n : { -1, 5 })
+				defs.push_back(std::string(WD[w]) + "_" + std::to_string(n) + "_" + MON[mo]);
+		for (int n : { -2, -5, 1, 2, 4 })
+			defs.push_back(std::string(WD[rng.below(7)]) + "_" + std::to_string(n) + "_" + MON[mo]);
+		for (int d : { -1, -2, -28, 1, 15, 28, 29, 30, 31 })
+			defs.push_back(std::string(MON[mo]) + "_" + std::to_string(d));
+		defs.push_back(std::string(MON[mo]) + "_15_-_-1");
+		defs.push_back(std::string(MON[mo]) + "_-5_-_-2_/_2");
+		defs.push_back(std::string(MON[mo]) + "_" + std::to_string(1 + (int)rng.below(10)) + "_-_" + std::to_string(20 + (int)rng.below(9)) + "_/_" + std::to_string(1 + (int)rng.below(3)));
+	}
+	for (int w = 0; w < 7; w++)
+		for (int n : { -1, -2, 1, 5 })
+			defs.push_back(std::string(WD[w]) + "_" + std::to_string(n));
+	for (int d : { -1, -2, -3, -30, -31, 1, 29, 30, 31 })
+		defs.push_back("day_" + std::to_string(d));
+	defs.push_back("day_-7_-_-1");
+	defs.push_back("day_25_-_-3");
+	defs.push_back("monday_1_-_friday_-1");
+	defs.push_back("monday_2_march_-_sunday_-1_october");
+	long long d0 = CivilToDays(year, 1, 1), d1 = CivilToDays(year, 12, 31);
+	int n = 0;
+	for (auto& def : defs) {
+		if (!thorough && n % 2 == (year & 1) && def.find("day_") == 0) { n++; continue; }
+		std::string enc = def + "=" + (n % 3 == 0 ? "00:00-24:00" : n % 3 == 1 ? "09:00-17:00" : "12:00-12:30");
+		long long b = MkLocal(d0, (int)rng.below(86400)), e = MkLocal(d1, (int)rng.below(86400));
+		OpCase("named_month");
+		if (n % 4 != 3) {
+			OpScript(b, e, enc);
+		} else { /* through UpdateRegion / IsInside: 12:15 of every day of the year */
+			OpPeriod(0, 1, "-", "-", enc);
+			OpUpdate(0, b, e, 1, "-");
+			std::string ts;
+			for (long long d = d0; d <= d1; d++) {
+				if (!ts.empty()) ts += ",";
+				ts += std::to_string(MkLocal(d, 12 * 3600 + 900));
+			}
+			OpQuery(0, ts);
+		}
+		n++;
+	}
+}
+
 /* Windows that end within the first hour of a local day shortly after a UTC-offset change (and one second before
  * that day begins): the place where "number of days = seconds / 86400" and "every local day whose midnight is not
  * after end" disagree.  Enumerated for every offset change of the zone in 2024..2029. */
@@ -637,11 +861,83 @@ static void GenDstEdges(Rng& rng, const std::vector<long long>& changeDays)
 	}
 }
 
+/* Production shape: legacy periods (ranges + LegacyTimePeriod update function) with a legacy exclude / include, started
+ * through the real Start at a random time of day and kept up to date by the real update timer for one to three days,
+ * on and around the days on which the UTC offset changes and on ordinary days.  Cases in ascending time. */
+static void GenCalTicks(Rng& rng, bool thorough, const std::vector<long long>& changeDays)
+{
+	std::vector<long long> days = changeDays;
+	for (long long d = CivilToDays(2024, 1, 3); d < CivilToDays(2029, 12, 1); d += (thorough ? 9 : 45) + (long long)rng.below(5))
+		days.push_back(d);
+	std::sort(days.begin(), days.end());
+	long long now = 0;
+	for (long long A : days) {
+		long long day0 = A - 1 + (long long)rng.below(2);
+		if (MkLocal(day0, 0) < now + 600) continue; /* the virtual clock must not run backwards */
+		now = MkLocal(day0, (int)rng.below(86400));
+		OpCase("cal_tick");
+		std::vector<std::pair<int, int>> tods;
+		auto legacy = [&](bool wide) {
+			/* mostly forms that match on the days of the case, so that the segments matter */
+			std::string k;
+			switch ((int)rng.below(wide ? 3 : 5)) {
+			case 0: k = DateStr(day0 - 2) + "_-_" + DateStr(day0 + 5) + (rng.coin() ? "_/_2" : ""); break;
+			case 1: k = std::string(WD[rng.below(7)]) + "_-_" + WD[rng.below(7)]; break;
+			case 2: k = "day_1_-_31"; break;
+			default: k = RandDayDef(rng, day0); break;
+			}
+			return k + "=" + RandTimeRanges(rng, tods);
+		};
+		bool withExc = rng.below(3) != 0, withInc = rng.below(3) == 0;
+		std::vector<int> ord;
+		ord.push_back(0);
+		if (withExc) ord.insert(ord.begin() + (long)rng.below(ord.size() + 1), 1);
+		if (withInc) ord.insert(ord.begin() + (long)rng.below(ord.size() + 1), 2);
+		for (int i : ord) {
+			if (i == 0) OpPeriod(0, (int)rng.below(2), withInc ? "2" : "-", withExc ? "1" : "-", legacy(true));
+			else OpPeriod(i, 1, "-", "-", legacy(false));
+		}
+		std::vector<int> act = ord;
+		if (rng.coin()) std::reverse(act.begin(), act.end());
+		for (int i : act) OpActivate(i, now, "-");
+		auto probe = [&](long long lo, long long hi) {
+			std::set<long long> ts;
+			for (long long d = (lo - 86400) / 86400; d <= (hi + 86400) / 86400; d++)
+				for (auto& p : tods)
+					for (int w = 0; w < 2; w++) {
+						long long t = MkLocal(d, w ? p.second : p.first);
+						if (t < lo - 7200 || t > hi + 7200) continue;
+						ts.insert(t - 1); ts.insert(t); ts.insert(t + 1);
+					}
+			for (int d2 = -1; d2 <= 1; d2++) { ts.insert(lo + d2); ts.insert(hi + d2); }
+			for (int i = 0; i < 12; i++) ts.insert(lo - 3600 + (long long)rng.below((uint64_t)(hi - lo + 7200)));
+			std::string s;
+			for (long long t : ts) { if (!s.empty()) s += ","; s += std::to_string(t); }
+			return s;
+		};
+		OpQuery(0, probe(now, now + 86400));
+		int ticks = 2 + (int)rng.below(6);
+		for (int f = 0; f < ticks; f++) {
+			static const long long jumps[] = { 300, 300, 600, 3900, 14400, 43200, 86400 };
+			now += jumps[rng.below(7)] + (long long)rng.below(3);
+			OpTick(now, "-");
+			OpQuery(0, probe(now - 3600, now + 86400));
+			if (withExc && rng.below(4) == 0) OpQuery(1, probe(now - 3600, now + 86400));
+		}
+	}
+}
+
 static void GenCalendar(uint64_t seed, bool thorough, const std::string& tz)
 {
 	Rng rng(seed * 1000003ULL + std::hash<std::string>()(tz) % 1000);
 	OpZone(tz);
 	GenNewYear(rng, thorough);
+	{
+		/* one whole year per zone (leap and common years over the five zones); thorough: two */
+		int y0 = tz == "UTC" ? 2024 : tz == "Europe/Berlin" ? 2025 : tz == "America/New_York" ? 2028 : tz == "Australia/Lord_Howe" ? 2026 : 2027;
+		GenNamedMonth(rng, thorough, y0);
+		if (thorough) GenNamedMonth(rng, thorough, y0 == 2024 ? 2027 : 2024);
+	}
 	/* anchor days: every offset change of this zone in 2024..2029, month ends, leap day, plus random days */
 	std::vector<long long> anchors;
 	{
@@ -652,6 +948,7 @@ static void GenCalendar(uint64_t seed, bool thorough, const std::string& tz)
 		}
 	}
 	GenDstEdges(rng, anchors); /* at this point the list holds exactly the offset-change days */
+	GenCalTicks(rng, thorough, anchors);
 	anchors.push_back(CivilToDays(2024, 2, 29));
 	anchors.push_back(CivilToDays(2028, 2, 29));
 	for (int y = 2023; y <= 2029; y++) { /* every New Year, after leap years (2024, 2028) and after common years */
@@ -734,6 +1031,7 @@ int main(int argc, char **argv)
 	InitIcinga();
 	l_VerifFn = new Function("VerifUpdate", VerifUpdate, { "tp", "begin", "end" });
 	l_LegacyFn = new Function("LegacyTimePeriod", LegacyUpdate, { "tp", "begin", "end" });
+	EnsureSentinel();
 
 	std::string mode = argv[1];
 	if (mode == "gen") {
@@ -768,6 +1066,8 @@ int main(int argc, char **argv)
 			else if (w[0] == "U" && w.size() >= 6) ok = OpUpdate(atoi(w[1].c_str()), atoll(w[2].c_str()), atoll(w[3].c_str()), atoi(w[4].c_str()), w[5]);
 			else if (w[0] == "Q" && w.size() >= 3) ok = OpQuery(atoi(w[1].c_str()), w[2]);
 			else if (w[0] == "K" && w.size() >= 4) OpScript(atoll(w[1].c_str()), atoll(w[2].c_str()), w[3]);
+			else if (w[0] == "A" && w.size() >= 4) ok = OpActivate(atoi(w[1].c_str()), atoll(w[2].c_str()), w[3]);
+			else if (w[0] == "T" && w.size() >= 3) OpTick(atoll(w[1].c_str()), w[2]);
 			else ok = false;
 			if (!ok) printf("X %s\n", l.c_str()); /* not executable (e.g. period removed by shrinking): the driver skips it */
 		}
